@@ -238,30 +238,66 @@ def _layout(repo, col, R="R-C01-layout"):
         S_, E_ = ps_
         is_n = lambda x: x.op == "binop" and x.name == "-" and x.args[0].op == "param" and x.args[0].name == E_ and \
             x.args[1].op == "param" and x.args[1].name == S_
-        rep = T.find(main, lambda x: x.op == "mcall" and x.name == "repeat" and len(x.args) == 3)
-        ar = T.find(main, lambda x: x.op == "mcall" and x.name == "arange" and len(x.args) == 2)
-        rs = T.find(main, lambda x: x.op == "mcall" and x.name == "reshape")
-        ok_rep = rep is not None and rep.args[1].op == "param" and rep.args[1].name == S_ and is_n(rep.args[2])
-        ok_ar = ar is not None and ar.args[1].op == "sub" and is_n(ar.args[1].args[0]) and ar.args[1].args[1].op == "const" and ar.args[1].args[1].name == 0
-        # reshape(repeat(...), (-1, n0)) + arange(n0): a SUM of the repeated starts and the offsets 0..n0-1
-        def leaf(x):
-            if rs is not None and x is rs:
-                return Rat.atom("starts")
-            if x.op == "mcall" and x.name == "astype" and ar is not None and T.find(x, lambda y: y is ar) is not None:
-                return Rat.atom("offs")
-            if ar is not None and x is ar:
-                return Rat.atom("offs")
-            return None
-        try:
-            form = _trat(main, leaf)
-            ok_sum = form.eq(Rat.atom("starts") + Rat.atom("offs"))
-        except Und:
-            ok_sum = False
-        ok_shape = rs is not None and len(rs.args) >= 3 and rs.args[1] is rep and rs.args[2].op == "tuple" and len(rs.args[2].args) == 2 and \
-            rs.args[2].args[1].op == "sub" and is_n(rs.args[2].args[1].args[0])
-        col.check(ok_rep and ok_ar and ok_sum and ok_shape, R, cfi, "_consecutive_indices(start, end): row b lists start[b], start[b]+1, ..., end[b]-1",
-                  "reshape(repeat(start, end - start), (-1, n)) + arange(n), n = (end - start)[0]",
-                  f"_consecutive_indices returns {main.short(160)} (repeat ok: {ok_rep}, offsets ok: {ok_ar}, sum ok: {ok_sum}, shape ok: {ok_shape}): "
+        def strip(x):
+            while (x.op == "mcall" and x.name in ("astype", "asarray", "array", "copy") and x.args) or \
+                    (x.op == "call" and x.name in ("int", "list") and len(x.args) == 1):
+                x = x.args[0] if (x.op == "call" or x.args[0].op != "free") else x.args[1]
+            return x
+
+        def is_n0(x):
+            """(end - start)[0], possibly int(...) / max(..., 0)"""
+            x = strip(x)
+            if x.op == "call" and x.name == "max" and len(x.args) == 2:
+                rest = [a_ for a_ in x.args if not (a_.op == "const" and a_.name == 0)]
+                if len(rest) == 1:
+                    return is_n0(rest[0])
+            return x.op == "sub" and is_n(strip(x.args[0])) and x.args[1].op == "const" and x.args[1].name == 0
+
+        def is_none_colon(ix, none_first):
+            if ix.op != "tuple" or len(ix.args) != 2:
+                return False
+            a_, b_ = ix.args if none_first else reversed(ix.args)
+            return a_.op == "const" and a_.name is None and b_.op == "slice" and all(c_.op == "const" and c_.name is None for c_ in b_.args)
+
+        def is_offsets(x):
+            """0, 1, ..., n0-1 along the columns: arange(n0) [.astype(int)] [[None, :]]"""
+            x = strip(x)
+            if x.op == "sub" and is_none_colon(x.args[1], True):
+                x = strip(x.args[0])
+            return x.op == "mcall" and x.name == "arange" and len(x.args) == 2 and is_n0(x.args[1])
+
+        def is_start_param(x):
+            x = strip(x)
+            return x.op == "param" and x.name == S_
+
+        def is_starts(x):
+            """start[b] in every column of row b: reshape(repeat(start, n), (-1, n0)), start[:, None], start.reshape(-1, 1),
+            expand_dims(start, 1)"""
+            x = strip(x)
+            if x.op == "sub" and is_none_colon(x.args[1], False):
+                return is_start_param(x.args[0])
+            if x.op == "mcall" and x.name == "expand_dims":
+                ax = x.args[2] if len(x.args) > 2 else x.kw.get("axis")
+                return len(x.args) >= 2 and is_start_param(x.args[1]) and ax is not None and ax.op == "const" and ax.name in (1, -1)
+            if x.op == "mcall" and x.name == "reshape":
+                lib = x.args[0].op == "free"
+                arr = x.args[1] if lib else x.args[0]
+                shp = x.args[2] if lib and len(x.args) > 2 else (x.args[1] if not lib and len(x.args) > 1 else None)
+                if shp is None or shp.op != "tuple" or len(shp.args) != 2 or not (
+                        (shp.args[0].op == "const" and shp.args[0].name == -1) or
+                        (shp.args[0].op == "unary" and shp.args[0].name == "USub" and shp.args[0].args[0].op == "const" and shp.args[0].args[0].name == 1)):
+                    return False
+                if is_start_param(arr):
+                    return shp.args[1].op == "const" and shp.args[1].name == 1
+                arr = strip(arr)
+                return arr.op == "mcall" and arr.name == "repeat" and len(arr.args) == 3 and is_start_param(arr.args[1]) and \
+                    is_n(strip(arr.args[2])) and is_n0(shp.args[1])
+            return False
+        ok = main.op == "binop" and main.name == "+" and (
+            (is_starts(main.args[0]) and is_offsets(main.args[1])) or (is_starts(main.args[1]) and is_offsets(main.args[0])))
+        col.check(ok, R, cfi, "_consecutive_indices(start, end): row b lists start[b], start[b]+1, ..., end[b]-1",
+                  "<start[b] in every column> + <0 .. n-1 along the columns>, n = (end - start)[0]",
+                  f"_consecutive_indices returns {main.short(200)}: not the sum of the start of every row and the offsets 0 .. (end - start)[0] - 1; "
                   f"the sweeps of the tridiagonal kernels would run over other slots than the blocks the writer filled", node=cfi.node)
     # equal-width assertion
     has_assert = any(isinstance(n_, ast.Assert) for n_ in walk_no_nested(cfi.node))
